@@ -17,11 +17,13 @@ LOSSES = [9, 11, 18]
 class Stepper:
     """The fixed program of FixedProg.tla with real tensors; executes abstract actions."""
 
-    def __init__(self, static: dict, pre: list[int], rng: random.Random, dtype=torch.float64, aggregator_factory=None):
+    def __init__(self, static: dict, pre: list[int], rng: random.Random, dtype=torch.float64, aggregator_factory=None,
+                 mixed: tuple = ()):
+        """``mixed``: leaf ids realised in the OTHER float dtype (mixed-precision parameter sets)."""
         self.static = static
         self.rng = rng
         self.dtype = dtype
-        self.B = Built(static["prog"], dtype=dtype, rng=rng, scalars=LOSSES)
+        self.B = Built(static["prog"], dtype=dtype, rng=rng, scalars=LOSSES, other_dtype_leaves=mixed)
         self.keep: list = []                      # keeps every .grad tensor ever seen alive (no address reuse)
         self.aggf = aggregator_factory
         for l in pre:
@@ -60,7 +62,11 @@ class Stepper:
         try:
             if act == "call":
                 c = self.static["calls"][i - 1]
-                w = torch.tensor([float(x) for x in c["w"]], dtype=self.dtype)
+                req = list(c["inputs"]) if c["fn"] == "backward" else list(c["shared"])
+                wdt = B.node(req[0]).dtype if req else self.dtype
+                for l in req[1:]:
+                    wdt = torch.promote_types(wdt, B.node(l).dtype)      # dtype of the united Jacobian
+                w = torch.tensor([float(x) for x in c["w"]], dtype=wdt)
                 agg = Constant(w) if self.aggf is None else self.aggf(c)
                 k = rng.choice([None, None, 1, 2, 5])
                 how = rng.choice(PRESENTATIONS)
@@ -87,8 +93,14 @@ class Stepper:
                 raise ValueError(act)
         except Exception as e:                      # noqa: BLE001
             exc = e
+        seen_before = {k.untyped_storage().data_ptr() for k in self.keep}     # every .grad tensor ever seen
+        seen_ids = {id(k) for k in self.keep}
         self._remember()
         after_p, after_o = self.ptrs(), self.objs()
+        # a .grad that appears where there was none must be NEW memory: not any gradient tensor the
+        # user may still hold from before a reset (C06: "shares memory with no other tensor")
+        recycled = [l for l in GRAD_LEAVES if before_p[l] is None and after_p[l] is not None and act == "call"
+                    and (after_p[l] in seen_before or id(after_o[l]) in seen_ids)]
         same = {}
         for l in GRAD_LEAVES:
             if before_p[l] is None and after_p[l] is None:
@@ -98,7 +110,7 @@ class Stepper:
             else:
                 same[l] = (before_p[l] == after_p[l]) and (before_o[l] is after_o[l])
         live = [p for p in after_p.values() if p is not None]
-        distinct = len(set(live)) == len(live) and not (set(live) & self.other_ptrs())
+        distinct = len(set(live)) == len(live) and not (set(live) & self.other_ptrs()) and not recycled
         return {"act": act, "i": i, "grad": self.grads(), "same": same, "distinct": distinct,
                 "vals": B.flat_vals() == vals0, "exc": None if exc is None else f"{type(exc).__name__}: {str(exc)[:160]}"}
 
